@@ -19,6 +19,8 @@ use std::num::NonZeroUsize;
 mod api;
 // the last public corners (track apileft): anchors / arenas / slices obtained through `Default`
 mod api2;
+// track traits: unwinding / scoped_panic hooks, Clone::clone_from ops
+mod traits;
 
 #[derive(Clone, Copy, PartialEq, Debug)]
 enum Cell {
@@ -53,6 +55,12 @@ impl Shadow {
 }
 
 pub struct IovecFamily;
+
+impl crate::unwind::Probe for IovecExec {
+    fn unwind_safe(&self, w: &[&str]) -> bool {
+        self.unwind_safe_words(w)
+    }
+}
 
 pub(crate) struct IovecExec {
     // objects first (dropped before the buffers they may borrow from)
@@ -305,6 +313,9 @@ impl Exec for IovecExec {
             return r;
         }
         if let Some(r) = self.step_api_tagged(w) {
+            return r;
+        }
+        if let Some(r) = self.step_traits(w) {
             return r;
         }
         let mut touched: Option<usize> = None;
@@ -990,7 +1001,7 @@ impl Family for IovecFamily {
     }
 
     fn new_exec(&self) -> Box<dyn Exec> {
-        Box::new(IovecExec::new())
+        crate::unwind::UnwindExec::boxed(IovecExec::new)
     }
 
     /// Hand-picked histories around the token checks of `backfill_or_panic` (C03 `no_panic_valid`,
@@ -1004,6 +1015,7 @@ impl Family for IovecFamily {
         cases.extend(self.handoff_cases());
         cases.extend(api::enumerated_cases());
         cases.extend(api2::enumerated_cases());
+        cases.extend(traits::enumerated_cases());
         cases.extend(vec![
             c(&["new", "register v0 0000", "backfill v0 b0 aa"]),
             c(&["new", "register v0 0000", "backfill v0 b0 aabbcc"]),
@@ -1023,7 +1035,24 @@ impl Family for IovecFamily {
         cases
     }
 
-    fn gen_case(&self, rng: &mut Rng, _idx: u64, thorough: bool) -> Vec<String> {
+    fn gen_case(&self, rng: &mut Rng, idx: u64, thorough: bool) -> Vec<String> {
+        // track traits: some calls made while the thread is unwinding; now and then a whole second
+        // history whose objects are owned by a scope that panics
+        let mut ops = self.gen_plain(rng, idx, thorough);
+        if rng.chance(1, 5) {
+            ops = traits::sprinkle_iovec(rng, ops, 1, 4);
+        }
+        if rng.chance(1, 10) {
+            let mut inner = self.gen_plain(rng, idx, false);
+            inner.truncate(12);
+            ops.push(format!("scoped_panic {}", inner.join(" ; ")));
+        }
+        ops
+    }
+}
+
+impl IovecFamily {
+    fn gen_plain(&self, rng: &mut Rng, _idx: u64, thorough: bool) -> Vec<String> {
         let maxops = if thorough { 60 } else { 28 };
         let nops = rng.range(3, maxops) as usize;
         // bias profile per case: 0 = general, 1 = backref heavy, 2 = clone/take heavy, 3 = arena/slice heavy
@@ -1048,6 +1077,26 @@ impl Family for IovecFamily {
                 g.new_iov();
                 continue;
             };
+            if g.rng.chance(1, 100) {
+                g.ops.push("dbg".into());
+                continue;
+            }
+            // Clone::clone_from between two live iovecs (fam_iovec/traits.rs)
+            if g.rng.chance(3, 100) {
+                let others: Vec<usize> = (0..g.iov_alive.len()).filter(|i| g.iov_alive[*i] && *i != v).collect();
+                if !others.is_empty() {
+                    let d = *g.rng.pick(&others);
+                    g.ops.push(format!("clone_from v{} v{}", d, v));
+                    g.iov_alive[d] = false;
+                    for s in g.bref_state.iter_mut() {
+                        if s.0 == d {
+                            s.2 = false;
+                        }
+                    }
+                    g.new_iov();
+                    continue;
+                }
+            }
             // the public-API completion vocabulary (fam_iovec/api.rs)
             if g.rng.chance(14, 100) && api::gen_op(&mut g, v) {
                 continue;
